@@ -59,9 +59,20 @@ def harness_dir():
     shutil.copyfile(os.path.join(REPO, "go.sum"), os.path.join(d, "go.sum"))
     return d
 
+def trim_gocache(limit_gb=12):
+    """The Go build cache grows without bound across trees and -race builds; keep it below a limit."""
+    gc = goenv()["GOCACHE"]
+    try:
+        out = subprocess.run(["du", "-s", "--block-size=1M", gc], capture_output=True, text=True).stdout
+        if out and int(out.split()[0]) > limit_gb * 1024:
+            subprocess.run(["go", "clean", "-cache"], env=goenv())
+    except Exception:
+        pass
+
 def build_harness(prop, race=False):
     """Rebuild the property's Go harness against REPO's current working tree (hooks on: -tags verif)."""
     with Lock("go"):
+        trim_gocache()
         d = harness_dir()
         binp = harness_bin(prop) + ("-race" if race else "")
         os.makedirs(os.path.dirname(binp), exist_ok=True)
